@@ -176,6 +176,12 @@ func (s *SequencerSyncer) syncRange(
 			Slot:        int64(slot),
 		})
 	})
+	if err != nil {
+		// The events and the sync status are written atomically. If that failed, stop here:
+		// continuing with the next range would move the sync status past events that have
+		// not been stored.
+		return errors.Wrap(err, "failed to store transaction submitted events and sync status")
+	}
 	log.Info().
 		Uint64("start-block", start).
 		Uint64("end-block", end).
